@@ -100,6 +100,7 @@ def install():
     runners.multiprocessing = K.MultiprocessingShim
     files.xopen = simfs.sim_xopen
     files.resource = _FakeResource()
+    simfs.RESOURCE = files.resource
     ft = _FakeTime()
     cli.time = ft
     adapters.time = ft
